@@ -159,10 +159,17 @@ type c01Flood struct {
 	Mix     int    `json:"forwarded_every"` // every Mix-th request is forwarded, the others are OPTIONS
 	Comp    string `json:"comp,omitempty"`
 	PauseMs int    `json:"pause_ms"`
+	// Saturate: the client reads normally and everything is forwarded to the single connection of a single host, so
+	// that more requests are in flight than the connection has stream ids (they are freed and re-taken at full speed)
+	Saturate bool `json:"saturate,omitempty"`
 }
 
 func c01FloodCheck(c c01Flood) *evid.Fail {
-	e, err := startEnv(envOpts{Hosts: 2, NumConns: 1, Keyspaces: []string{"ks1"}})
+	hosts := 2
+	if c.Saturate {
+		hosts = 1
+	}
+	e, err := startEnv(envOpts{Hosts: hosts, NumConns: 1, Keyspaces: []string{"ks1"}})
 	if err != nil {
 		return evid.Failf("harness-env", "%v", err)
 	}
@@ -172,8 +179,10 @@ func c01FloodCheck(c c01Flood) *evid.Fail {
 		return evid.Failf("harness-client", "%v", err)
 	}
 	base := r.c.NumFrames()
-	r.c.PauseReads()
-	resumed := false
+	if !c.Saturate {
+		r.c.PauseReads()
+	}
+	resumed := c.Saturate
 	defer func() {
 		if !resumed {
 			r.c.ResumeReads()
@@ -198,9 +207,11 @@ func c01FloodCheck(c c01Flood) *evid.Fail {
 	if err := r.c.Send(buf); err != nil {
 		return evid.Failf("harness-send", "%v", err)
 	}
-	time.Sleep(time.Duration(c.PauseMs) * time.Millisecond) // the consumer is slow; only widens the explored states
-	r.c.ResumeReads()
-	resumed = true
+	if !c.Saturate {
+		time.Sleep(time.Duration(c.PauseMs) * time.Millisecond) // the consumer is slow; only widens the explored states
+		r.c.ResumeReads()
+		resumed = true
+	}
 	stallReset()
 	if !r.c.WaitN(base+c.N, posWait) {
 		got := r.c.NumFrames() - base
@@ -368,10 +379,13 @@ func TestC01(t *testing.T) {
 		return c
 	}, c01ExhaustCheck)
 
-	runProp(t, rec, "flood", perShard(evid.Pick(24, 600)), func(rt *rapid.T) c01Flood {
+	runProp(t, rec, "flood", perShard(evid.Pick(64, 1600)), func(rt *rapid.T) c01Flood {
 		c := c01Flood{N: rapid.IntRange(1100, 6000).Draw(rt, "n"), Mix: rapid.SampledFrom([]int{0, 1, 2, 7}).Draw(rt, "mix"),
 			Comp: rapid.SampledFrom([]string{"", "lz4"}).Draw(rt, "comp"), PauseMs: rapid.IntRange(0, 40).Draw(rt, "pause")}
-		rec.Case("flood:"+js(c), "flood")
+		if rapid.IntRange(0, 1).Draw(rt, "saturate") == 0 {
+			c = c01Flood{N: rapid.IntRange(6000, 14000).Draw(rt, "nsat"), Mix: 1, Saturate: true}
+		}
+		rec.Case("flood:"+js(c), map[bool]string{true: "flood:saturated-stream-ids", false: "flood"}[c.Saturate])
 		rec.ExtraAdd("requests_sent", int64(c.N))
 		return c
 	}, c01FloodCheck)
